@@ -7,6 +7,10 @@
 //   t sub <script>     subscriber thread: starts a coroutine listener (script over r,x as in h_signal.cpp; - = empty)
 //   t cb <n>           subscriber thread: copies the signal, connects a callback answering true n times, drops the copy
 //   sched <tid>...     the schedule (see the shim)
+// `case <id> sigt hook`: there is no signal at first; exactly one thread is
+//   t hook <script>    a coroutine listener on signal<int>::hook_up(fn): its first co_await creates the signal, subscribes,
+//                      then calls fn, which hands the collector to the other threads (store to an interposed atomic =
+//                      a scheduling point right after the hand-over); every other thread waits for that hand-over first
 //   end
 //
 // Output: the shim's operation log (`s <tid> [a<listener>] cas+|cas-|xchg chain <seen>><desired>`, `s <tid> fin`),
@@ -56,6 +60,27 @@ static async<void> listener(int id, isig::emitter em, std::string script) {
     --live_frames;
 }
 
+template <typename RegFn>
+static async<void> hook_listener(int id, RegFn reg, std::string script) {
+    ++live_frames;
+    std::size_t pc = 0;
+    auto em = isig::hook_up(std::move(reg));
+    S().name_ptr((awaiter *)&em, "L" + std::to_string(id));     // C-style cast: the base is protected
+    try {
+        for (;;) {
+            vshim::Sched::tag() = id;
+            int &v = co_await em;
+            vshim::Sched::tag() = id;
+            log("obs L" + std::to_string(id) + " v" + std::to_string(v));
+            char a = pc < script.size() ? script[pc++] : 'r';
+            if (a == 'x') break;
+        }
+    } catch (const await_canceled_exception &) {
+        log("obs L" + std::to_string(id) + " canceled");
+    }
+    --live_frames;
+}
+
 struct cb_shared {
     int id;
     int left;
@@ -82,7 +107,8 @@ struct cb_fn {
     }
 };
 
-static void run_case(const std::vector<std::vector<std::string>> &lines) {
+static void run_case(const std::vector<std::string> &hdr, const std::vector<std::vector<std::string>> &lines) {
+    const bool hook = hdr.size() > 3 && hdr[3] == "hook";
     std::vector<std::vector<std::string>> threads;
     std::vector<int> sched;
     for (auto &w : lines) {
@@ -90,19 +116,32 @@ static void run_case(const std::vector<std::vector<std::string>> &lines) {
         else if (w[0] == "sched") for (std::size_t i = 1; i < w.size(); i++) sched.push_back(atoi(w[i].c_str()));
     }
     std::optional<isig> sig;
-    sig.emplace();
-    std::optional<isig::collector> col = sig->get_collector();
-    isig::emitter em = sig->get_emitter();
-    S().name_obj(&col->_state->_chain, "chain");
-    // callbacks need a signal object of their own: copied here, before the run
+    std::optional<isig::collector> col;
+    isig::emitter em;
+    std::verif_atomic<bool> published{false};
+    S().name_obj(&published, "pub");
+    // callbacks need a signal object of their own: copied here, before the run (hook: by the thread, after the hand-over)
     std::vector<std::shared_ptr<isig>> own(threads.size());
-    for (std::size_t i = 0; i < threads.size(); i++)
-        if (threads[i][1] == "cb") own[i] = std::make_shared<isig>(*sig);
+    if (!hook) {
+        sig.emplace();
+        col = sig->get_collector();
+        em = sig->get_emitter();
+        S().name_obj(&col->_state->_chain, "chain");
+        for (std::size_t i = 0; i < threads.size(); i++)
+            if (threads[i][1] == "cb") own[i] = std::make_shared<isig>(*sig);
+    }
+    auto wait_pub = [&] {
+        if (hook && !published.raw()) {
+            S().log_op("wait-block pub");
+            S().block([&] { return published.raw(); });
+        }
+    };
     int next_val = 0;
     int tid = 0;
     for (auto &t : threads) {
         if (t[1] == "col") {
             S().spawn([&, t, tid] {
+                wait_pub();
                 for (std::size_t k = 2; k < t.size(); k++) {
                     vshim::Sched::tag() = -1;
                     if (t[k] == "e") {
@@ -125,13 +164,32 @@ static void run_case(const std::vector<std::vector<std::string>> &lines) {
         } else if (t[1] == "sub") {
             std::string sc = t.size() > 2 && t[2] != "-" ? t[2] : std::string();
             S().spawn([&, sc, tid] {
+                wait_pub();
                 vshim::Sched::tag() = tid;
                 listener(tid, em, sc).detach();
+                vshim::Sched::tag() = -1;
+            });
+        } else if (t[1] == "hook" && hook) {
+            std::string sc = t.size() > 2 && t[2] != "-" ? t[2] : std::string();
+            S().spawn([&, sc, tid] {
+                vshim::Sched::tag() = tid;
+                hook_listener(tid, [&, tid](isig::collector c) {
+                    log("op " + std::to_string(tid) + " reg");
+                    S().name_obj(&c._state->_chain, "chain");
+                    em = isig(c).get_emitter();
+                    col = std::move(c);
+                    published.store(true);      // a scheduling point: the other threads may use the collector at once
+                }, sc).detach();
                 vshim::Sched::tag() = -1;
             });
         } else if (t[1] == "cb") {
             int n = t.size() > 2 ? atoi(t[2].c_str()) : 0;
             S().spawn([&, n, tid] {
+                wait_pub();
+                if (hook) {
+                    if (!col) { log("op " + std::to_string(tid) + " no-signal"); return; }
+                    own[tid] = std::make_shared<isig>(isig(*col));
+                }
                 vshim::Sched::tag() = tid;
                 auto sh = std::make_shared<cb_shared>(cb_shared{tid, n});
                 own[tid]->connect(cb_fn(sh));
@@ -174,7 +232,7 @@ int main() {
             dup2(ep[1], 2);     // the sanitizer report of the child: its SUMMARY line is added to the `crash` line
             close(ep[1]);
             alarm(20);
-            run_case(lines);
+            run_case(hdr, lines);
             S().log_line("end");
             std::cout.flush();
             _exit(0);
